@@ -95,6 +95,10 @@ def make(tag="main", keep=False):
     os.makedirs(os.path.join(root, ".cargo"))
     with open(os.path.join(root, ".cargo", "config.toml"), "w") as f:
         f.write("[net]\noffline = true\n")
+    # harness sources are copied into the scratch crate (a run is then immune to edits of
+    # /verif/harness while it is in progress, and a snapshot of /verif uses its own harnesses)
+    hdst = os.path.join(root, "verif_harness")
+    shutil.copytree(HARNESS_DIR, hdst)
     for rel, mods in APPEND.items():
         p = os.path.join(root, rel)
         if not os.path.exists(p):
@@ -102,7 +106,7 @@ def make(tag="main", keep=False):
         with open(p, "a") as f:
             f.write("\n")
             for mod, hf in mods:
-                hp = os.path.join(HARNESS_DIR, hf)
+                hp = os.path.join(hdst, hf)
                 if os.path.exists(hp):
                     f.write('#[cfg(kani)]\n#[allow(warnings)]\nmod %s { include!("%s"); }\n' % (mod, hp))
     return root
